@@ -9,8 +9,9 @@ def run():
     tok_model(acc, ["A"], 5 if th else 4, invariants=["FixpointDom"])
     tok_model(acc, ["F"], 5 if th else 4)       # capitalised URL scheme (fix in normalizeToken)
     tok_model(acc, ["G"], 6 if th else 5)       # hyphen-ended notice lines (fix in Normalize's renderer)
+    tok_model(acc, ["I"], 5 if th else 4, invariants=["FixpointDom"])   # character references (a decoded upper-case letter)
     tok_model(acc, ["E"], 5, invariants=["Fixpoint"], expect_violation="Fixpoint")   # the open finding C11-token-ends-in-hyphen at model level ("1-.\na")
-    tok_replay(v, acc, ["E", "A", "F"], 5 if th else 4)
+    tok_replay(v, acc, ["E", "A", "F", "I"], 5 if th else 4)
     tok_replay(v, acc, ["G"], 6 if th else 5)
     pad_leg(v, acc)                                       # the read buffer under the tokenizer: multi-byte text at every alignment
     recs, lines = trace_leg(v, acc, "c11", [PID])
